@@ -66,6 +66,10 @@ def dispatch (extra : List String) (src ds de : List Char) (cfg : Cfg) (_args : 
   | ["C14", out] =>
     let n := (extentsOfSource src ds de cfg).length
     s!"ok\t{b2s (c14Holds src ds de cfg (unhex out))} {n}"
+  | ["C13", out] =>
+    (match c13Holds src ds de cfg (unhex out) with
+     | some r => s!"ok\t{b2s r}"
+     | none => "ok\tvacuous")
   | ["C15", items] =>
     if wrapFreeB (bytesOf src) (parseSource src ds de) then
       s!"ok\t{b2s (c15Holds src ds de cfg ((parseRegions items).map fun x => (x.1, x.2.1)))}"
